@@ -46,6 +46,10 @@ OTHER = 'o = { ASCII_HEX_DIGIT ~ (ASCII_ALPHA | ASCII_DIGIT | "-" | "_")* ~ NEWL
 OPS = ["mk_same_opt", "mk_same_plain", "mk_other_opt", "mk_other_plain", "gen_same_opt", "gen_other_opt", "gen_other_plain", "use_ok", "use_fail", "other_parse", "sibling_parse", "sibling_gen_parse", "namesake_opt", "namesake_plain"]
 
 
+HIST: dict[str, str] = {}  # history grammar of a family-pair unit (set per task)
+HIST_INPUTS = ["", "a", "ab", "abc", "a b", "a#!b", "aab ", "\x00"]
+
+
 def build_observed(cp, gname: str, mode: str):
     g = GRAMMARS[gname][0]
     p = cp.parser(g, optimized=mode in ("IO", "GO"))
@@ -88,6 +92,14 @@ def apply_op(cp, op: str, gname: str, observed):
         p = cp.parser(NAMESAKE, optimized=op == "namesake_opt")
         pestenv.run_parse(p, "r", "abX,s1")
         pestenv.run_parse(p, "r", "ab")
+    elif op in ("pair_opt", "pair_plain", "pair_gen"):
+        # another grammar of the generated family: the same rule NAMES (r, inner, x, y, s, at, cp, ...) with
+        # other bodies, other trivia and other optimizer outcomes
+        p = cp.parser(HIST["text"], optimized=op != "pair_plain")
+        target = cp.generated(p) if op == "pair_gen" else p
+        for rule in HIST["rules"]:
+            for t in HIST_INPUTS:
+                pestenv.run_parse(target, rule, t)
     elif op == "other_parse":
         p = cp.parser(OTHER, optimized=True)
         pestenv.run_parse(p, "o", "a1-b\n")
@@ -114,6 +126,7 @@ def setup(gname, mode, history, when):
 def run(task: dict) -> dict:
     gname, mode, history, when = task["grammar"], task["mode"], task["history"], task["when"]
     res = core.new_result(task["unit"])
+    _install_pair(task)
     try:
         obs_a, obs_b = setup(gname, mode, history, when)
     except Exception as e:  # noqa: BLE001
@@ -162,6 +175,13 @@ def run(task: dict) -> dict:
     return res
 
 
+def _install_pair(task):
+    if task.get("gtext"):
+        GRAMMARS[task["grammar"]] = (task["gtext"], "ab", "\x00\x00")
+        HIST.clear()
+        HIST.update({"text": task["htext"], "rules": task["hrules"]})
+
+
 def _fail(task, key, kind, detail, w, pc, vars_, status="new", region=None):
     return {
         "key": key,
@@ -172,12 +192,14 @@ def _fail(task, key, kind, detail, w, pc, vars_, status="new", region=None):
         "vars": vars_,
         "status": status,
         "finding": (region or {}).get("finding") if status == "known" else None,
-        "replay": {"type": "c15", "module": "vf.props.c15", "grammar": task["grammar"], "mode": task["mode"], "history": task["history"], "when": task["when"], "text": w},
+        "replay": {"type": "c15", "module": "vf.props.c15", "grammar": task["grammar"], "mode": task["mode"], "history": task["history"], "when": task["when"], "text": w,
+                   "gtext": task.get("gtext"), "htext": task.get("htext"), "hrules": task.get("hrules")},
     }
 
 
 def _replay(spec):
     pestenv.REAL = True
+    _install_pair(spec)
     obs_a, obs_b = setup(spec["grammar"], spec["mode"], spec["history"], spec["when"])
     ra = pestenv.run_parse(obs_a, "r", spec["text"], detail=True)
     rb = pestenv.run_parse(obs_b, "r", spec["text"], detail=True)
@@ -212,6 +234,36 @@ def canary() -> bool:
     finally:
         pestenv.load_copy = orig
     return bool(r["failures"])
+
+
+def pair_tasks(tier: str, seed: int) -> list[dict]:
+    """Pairs (observed, history) of grammars of the generated family: they share their rule names, so whatever
+    a parser build keys by rule name, literal set or expression shape is exercised across unrelated grammars."""
+    from .. import family
+
+    mem = [m for m in family.family(["none", "ws2", "cm", "cmb", "both"]) if "LETTER" not in m["features"]]
+    by_kind: dict[str, list] = {}
+    by_ctx: dict[str, list] = {}
+    for m in mem:
+        by_kind.setdefault(m["kind"], []).append(m)
+        by_ctx.setdefault(m["ctx"], []).append(m)
+    rnd = random.Random(f"{seed}/pairs")
+    count = 400 if tier == "quick" else 3000
+    tasks = []
+    for i in range(count):
+        o = rnd.choice(mem)
+        how = i % 3
+        h = rnd.choice(by_kind[o["kind"]]) if how == 0 else rnd.choice(by_ctx[o["ctx"]]) if how == 1 else rnd.choice(mem)
+        if h["text"] == o["text"]:
+            continue
+        mode = ("IO", "GO", "I", "G")[i % 4] if tier == "quick" else None
+        for md in [mode] if mode else ["I", "IO", "G", "GO"]:
+            op = ("pair_opt", "pair_gen", "pair_plain")[(i // 4) % 3]
+            for when in ("before", "after"):
+                unit = f"pair/{o['id']}~{h['id']}/{md}/{op}/{when}"
+                tasks.append({"fn": "c15", "unit": unit, "grammar": "pair:" + o["id"], "gtext": o["text"], "htext": h["text"], "hrules": family.start_rules(h),
+                              "mode": md, "history": [op], "when": when, "lengths": [0, 1, 2, 3], "regions": {}})
+    return tasks
 
 
 def main(tier: str, seed: int, args) -> int:
@@ -250,6 +302,7 @@ def main(tier: str, seed: int, args) -> int:
                             "regions": {k[len(unit) + 1 :]: v for k, v in regions.items() if k.startswith(unit + "|")},
                         }
                     )
+    tasks += pair_tasks(tier, seed)
     if args.only:
         tasks = [t for t in tasks if args.only in t["unit"]]
     print(f"C15 {tier}: {len(tasks)} units", flush=True)
